@@ -106,16 +106,8 @@ Definition neutrals_ok (text : list obs) (ivs : list (Z * Z * bool)) (ms : list 
        || strong (o_script (obs_at text (i_start r)))
        || existsb (fun m => m =? i_start r) ms) runs.
 
-(* closing paired delimiters of the range (matched or not) *)
-Definition is_closer (o : obs) : bool := negb (strong (o_script o)) && (0 <=? o_delim o) && Z.odd (o_delim o).
-Definition closers (text : list obs) (x : input) : list Z :=
-  filter (fun i => is_closer (obs_at text i)) (zrange (i_start x) (i_end x)).
-
-(* what is proved of the model: (a) and (c) with any closing delimiter admitted *)
-Definition script_ok_weak (text : list obs) (bidi : option (list (Z * bool))) (x : input) (runs : list input) : bool :=
-  strong_ok text runs && neutrals_ok text (intervals_of bidi x) (closers text x) runs.
-
-(* the full statement, evaluated on the implementation: (a), (b) and (c) with matched closing delimiters only *)
+(* the full statement: (a), (b) and (c) with matched closing delimiters only; evaluated on the implementation and
+   proved of the model *)
 Definition script_ok (text : list obs) (bidi : option (list (Z * bool))) (x : input) (runs : list input) : bool :=
   strong_ok text runs && brackets_ok text bidi x runs
   && neutrals_ok text (intervals_of bidi x) (map fst (delim_matches text x)) runs.
